@@ -397,6 +397,9 @@ def body_map(data) -> Outcome:
         elif mode == "default_pool":  # the pool pipefunc creates itself: parallel=True without an executor
             kw["parallel"] = True
             in_process = False
+        if entry == "map" and mode in ("seq", "thread", "sched") and (pick >> 6) % 3 == 0:
+            kw["show_progress"] = True  # the progress tracker wraps every call; it must not alter what a failure looks like
+            out.labels.append("show_progress")
         inputs = mp.make_inputs(prog)
 
         def go():
